@@ -1,0 +1,26 @@
+//go:build verif
+
+package common
+
+import "sync"
+
+// VerifHooks reports whether the verification scheduling hooks are compiled in.
+const VerifHooks = true
+
+// VerifSchedHook, when set by a verification harness, is called just before a
+// hooked mutex is acquired (phase 0) and after it was released (phase 1).
+var VerifSchedHook func(mu *sync.Mutex, phase int)
+
+// VerifBeforeLock is evaluated just before a hooked mutex is acquired.
+func VerifBeforeLock(mu *sync.Mutex) {
+	if h := VerifSchedHook; h != nil {
+		h(mu, 0)
+	}
+}
+
+// VerifAfterUnlock is evaluated after a hooked mutex was released.
+func VerifAfterUnlock(mu *sync.Mutex) {
+	if h := VerifSchedHook; h != nil {
+		h(mu, 1)
+	}
+}
